@@ -254,10 +254,14 @@ func runC16(c *Ctx, r *Run) {
 				if !fed {
 					return
 				}
-				for _, uc := range callsNamed(h, "UnmarshalBinary") {
+				var ucs []*ssa.Call
+				for _, hf := range regionOf(h) {
+					ucs = append(ucs, callsNamed(hf, "UnmarshalBinary")...)
+				}
+				for _, uc := range ucs {
 					obj := recvOf(uc)
 					for _, ret := range returnsOf(h) {
-						if len(ret.Results) > 0 && !isNilConst(ret.Results[0]) && sameObject(resolveLoad(ret.Results[0]), obj) {
+						if len(ret.Results) > 0 && !isNilConst(ret.Results[0]) && sameObject(resultThroughHelpers(resolveLoad(ret.Results[0])), obj) {
 							// the value of result 0 at the call site
 							for _, ref := range *call.Referrers() {
 								if ex, isEx := ref.(*ssa.Extract); isEx && ex.Index == 0 {
@@ -359,12 +363,59 @@ func checkTaggedHashShapeAs(c *Ctx, r *Run, rule string) {
 			}
 		}
 	})
+	// the initialisation (hasher + tag prefix) may live in a constructor helper: h := newTaggedHasher(tag)
+	var ctor *ssa.Function
+	var ctorCall *ssa.Call
+	if hasher == nil && sum256 == nil {
+		allInstrs(fn, func(in ssa.Instruction) {
+			call, ok := in.(*ssa.Call)
+			if !ok || ctor != nil {
+				return
+			}
+			g := localHelperOf(call)
+			if g == nil {
+				return
+			}
+			var h2, s2 *ssa.Call
+			allInstrs(g, func(in2 ssa.Instruction) {
+				if c2, ok := in2.(*ssa.Call); ok {
+					if o := calleeObj(c2); o != nil && o.Pkg() != nil && o.Pkg().Path() == "crypto/sha256" {
+						switch o.Name() {
+						case "New":
+							h2 = c2
+						case "Sum256":
+							s2 = c2
+						}
+					}
+				}
+			})
+			if h2 == nil || s2 == nil {
+				return
+			}
+			for _, ret := range returnsOf(g) {
+				if len(ret.Results) != 1 || stripConv(ret.Results[0]) != ssa.Value(h2) {
+					return
+				}
+			}
+			ctor, ctorCall, hasher, sum256 = g, call, h2, s2
+		})
+	}
 	if hasher == nil || sum256 == nil {
 		r.Fail(rule, name+"|sha256", c.Pos(fn.Pos()), "TaggedHash uses crypto/sha256 New and Sum256", "hasher or tag digest not found: not SHA-256")
 		return
 	}
 	// the tag digest is of the tag parameter
-	tagOK := dependsOn(sum256.Call.Args[0], func(v ssa.Value) bool { return v == ssa.Value(fn.Params[0]) })
+	tagOK := dependsOn(sum256.Call.Args[0], func(v ssa.Value) bool {
+		if ctor != nil {
+			for i, p := range ctor.Params {
+				if v == ssa.Value(p) && i < len(ctorCall.Call.Args) && ctorCall.Call.Args[i] == ssa.Value(fn.Params[0]) {
+					return true
+				}
+			}
+			return false
+		}
+		return v == ssa.Value(fn.Params[0])
+	})
 	r.Check(rule, name+"|tag-digest", c.Pos(sum256.Pos()), tagOK, "the prefix is SHA256 of the tag parameter", "Sum256 is not applied to the tag")
 	// token of a written value
 	var tokenOf func(v ssa.Value) []string
@@ -399,24 +450,39 @@ func checkTaggedHashShapeAs(c *Ctx, r *Run, rule string) {
 	var writes []wr
 	var sums []*ssa.Call
 	other := ""
-	for _, ref := range *hasher.Referrers() {
-		call, ok := ref.(*ssa.Call)
-		if !ok || !call.Call.IsInvoke() || call.Call.Value != ssa.Value(hasher) {
-			if _, isDbg := ref.(*ssa.DebugRef); !isDbg {
-				other = ref.String()
+	collect := func(hv ssa.Value, inCtor bool) {
+		var ws []wr
+		for _, ref := range *hv.Referrers() {
+			call, ok := ref.(*ssa.Call)
+			if !ok || !call.Call.IsInvoke() || call.Call.Value != hv {
+				_, isDbg := ref.(*ssa.DebugRef)
+				_, isRet := ref.(*ssa.Return)
+				if !isDbg && !(inCtor && isRet) {
+					other = ref.String()
+				}
+				continue
 			}
-			continue
+			switch call.Call.Method.Name() {
+			case "Write":
+				ws = append(ws, wr{call, tokenOf(call.Call.Args[0]), blockInLoop(call.Block())})
+			case "Sum":
+				sums = append(sums, call)
+			default:
+				other = call.Call.Method.Name()
+			}
 		}
-		switch call.Call.Method.Name() {
-		case "Write":
-			writes = append(writes, wr{call, tokenOf(call.Call.Args[0]), blockInLoop(call.Block())})
-		case "Sum":
-			sums = append(sums, call)
-		default:
-			other = call.Call.Method.Name()
+		sort.SliceStable(ws, func(i, j int) bool { return instrDominates(ws[i].call, ws[j].call) })
+		for i := 0; i+1 < len(ws); i++ {
+			if !instrDominates(ws[i].call, ws[i+1].call) {
+				other = "unordered writes"
+			}
 		}
+		writes = append(writes, ws...)
 	}
-	sort.SliceStable(writes, func(i, j int) bool { return instrDominates(writes[i].call, writes[j].call) })
+	collect(hasher, ctor != nil)
+	if ctor != nil {
+		collect(ctorCall, false) // the constructor's writes come first, then TaggedHash's own
+	}
 	var stream []string
 	for _, w := range writes {
 		for _, t := range w.toks {
@@ -428,12 +494,7 @@ func checkTaggedHashShapeAs(c *Ctx, r *Run, rule string) {
 	}
 	got := strings.Join(stream, " || ")
 	want := "H(tag) || H(tag) || data[i]*"
-	ordered := true
-	for i := 0; i+1 < len(writes); i++ {
-		if !instrDominates(writes[i].call, writes[i+1].call) {
-			ordered = false
-		}
-	}
+	ordered := true // (checked per function in collect)
 	r.Check(rule, name+"|stream", c.Pos(hasher.Pos()), got == want && ordered && other == "",
 		"the hashed byte stream is "+want,
 		fmt.Sprintf("the hashed byte stream is %q (other use of the hasher: %q), BIP-340 prescribes %s: all tagged hashes change consistently, the library still verifies its own signatures but not the standard's", got, other, want))
@@ -443,11 +504,27 @@ func checkTaggedHashShapeAs(c *Ctx, r *Run, rule string) {
 		s := sums[0]
 		after := true
 		for _, w := range writes {
+			if w.call.Parent() != s.Parent() {
+				continue // written by the constructor, before the hasher was handed out
+			}
 			if !(instrDominates(w.call, s) || w.inLoop && blockReaches(w.call.Block(), s.Block())) {
 				after = false
 			}
 		}
 		isNil := len(s.Call.Args) == 1 && isNilConst(s.Call.Args[0])
+		// Sum appends to its argument: an empty slice (whatever its capacity) is as good as nil
+		if ms, isMS := s.Call.Args[0].(*ssa.MakeSlice); isMS {
+			if k, isK := constInt(ms.Len); isK && k == 0 {
+				isNil = true
+			}
+		}
+		if sl, isSl := s.Call.Args[0].(*ssa.Slice); isSl && sl.High != nil {
+			if _, fresh := sl.X.(*ssa.Alloc); fresh {
+				if k, isK := constInt(sl.High); isK && k == 0 {
+					isNil = true
+				}
+			}
+		}
 		returned := false
 		for _, ret := range returnsOf(fn) {
 			if len(ret.Results) == 1 && stripConv(ret.Results[0]) == ssa.Value(s) {
@@ -551,7 +628,19 @@ func checkEvenYNegations(c *Ctx, r *Run, rule string, fn *ssa.Function, want int
 		why    string
 	}
 	var pairs []pair
-	for _, b := range fn.Blocks {
+	// (the adjustment of the key may live in a helper that prepares the signing key: the function and the helpers it calls)
+	type fb struct {
+		f *ssa.Function
+		b *ssa.BasicBlock
+	}
+	var blocks []fb
+	for _, f := range regionOf(fn) {
+		for _, b := range f.Blocks {
+			blocks = append(blocks, fb{f, b})
+		}
+	}
+	for _, fbk := range blocks {
+		b, bf := fbk.b, fbk.f
 		if len(b.Instrs) == 0 {
 			continue
 		}
@@ -598,7 +687,7 @@ func checkEvenYNegations(c *Ctx, r *Run, rule string, fn *ssa.Function, want int
 		}
 		negIn := func(blk *ssa.BasicBlock) bool {
 			found := false
-			for _, bb := range fn.Blocks {
+			for _, bb := range bf.Blocks {
 				if !(bb == blk || blk.Dominates(bb)) {
 					continue
 				}
@@ -646,7 +735,25 @@ func checkEvenYNegations(c *Ctx, r *Run, rule string, fn *ssa.Function, want int
 		ok := true
 		bad := ""
 		root := resolveLoad(p.scalar)
-		allInstrs(fn, func(in ssa.Instruction) {
+		pf := p.iff.Parent()
+		if pf != fn {
+			// adjusted inside a helper: the helper hands the adjusted scalar back only past the adjustment
+			handsBack := false
+			for _, ret := range returnsOf(pf) {
+				for _, rv := range ret.Results {
+					if sameObject(resolveLoad(rv), root) {
+						handsBack = true
+						if !(p.iff.Block().Dominates(ret.Block()) && p.iff.Block() != ret.Block()) {
+							ok, bad = false, c.Pos(ret.Pos())
+						}
+					}
+				}
+			}
+			if !handsBack {
+				ok, bad = false, c.Pos(pf.Pos())+" (the helper does not return the adjusted scalar)"
+			}
+		}
+		allInstrs(pf, func(in ssa.Instruction) {
 			cc, isCall := in.(ssa.CallInstruction)
 			if !isCall {
 				return
